@@ -294,6 +294,22 @@ def try_parse(data: bytes, strict: bool = True) -> Tuple[Optional[Msg], Optional
         return None, str(e)
 
 
+def questions_only(data: bytes) -> Optional[List[Q]]:
+    """Leniently parse just the header and the question section (None if even that fails)."""
+    try:
+        p = _Parser(data, False)
+        qd = p.u16(4)
+        off = 12
+        out = []
+        for _ in range(qd):
+            n, off = p.name(off)
+            out.append(Q(n, p.u16(off), p.u16(off + 2)))
+            off += 4
+        return out
+    except Reject:
+        return None
+
+
 def header_counts(data: bytes) -> Tuple[int, int, int, int, int, int]:
     return struct.unpack_from(">HHHHHH", data, 0)
 
